@@ -66,9 +66,11 @@ def c03(rec, tier):
     F = D(rec)
     S = SY(rec)
     f2_emit.run_fixed_index(rec, S)
+    f2_emit.run_known_class_receiver(rec, S)
     f4_obj.run_classes(rec, F)
     f2_emit.run_provenance(rec, S)
     f9_casts.run_receiver_soundness(rec, F, S)
+    f4_cache.run(rec, F)  # super.m / obj.m must not be answered from another class's cache entry
 
 
 def c04(rec, tier):
@@ -93,6 +95,8 @@ def c13(rec, tier):
     S = SY(rec)
     f4_cache.run(rec, F)
     f2_emit.run_slots(rec, S)
+    f2_emit.run_fixed_index(rec, S)
+    f2_emit.run_known_class_receiver(rec, S)
     f4_vm.cache_coverage(rec, F)
     f5_trace.run(rec, F, only_adts=("laythe_vm::vm::Vm", "laythe_vm::cache::InlineCache"))
 
@@ -177,6 +181,9 @@ def c16(rec, tier):
     f2_emit.run_constant_kinds(rec, S, F)
     f4_sched.launch_transfers_callee_slot(rec, F)
     f9_casts.run_todo_sites(rec, F)
+    f9_casts.run_library_indexers(rec, F)
+    f9_casts.run_vm_sizes(rec, F)
+    f4_vm.hook_exit(rec, F)
 
 
 def c17(rec, tier):
